@@ -12,6 +12,7 @@ CONSTANTS
   PairingSets = {{"p1", "p2"}}
   Supp = {"p1"}
   Addons = {FALSE}
+  SplitReserve = FALSE
 INIT Init
 NEXT Next
 INVARIANTS TypeOK Exclusive Accounting Bound Signed BlockedRule
